@@ -2,13 +2,20 @@
 directory, ip-sets, bound ports, a network service) on which containers are
 started and finished through the REAL code:
 
-  start  = the network slice of treadmill.runtime.linux._run.run:
-           network_client.put/wait, runtime.allocate_network_ports (fake
-           `socket`, enumerated `random.sample`), runtime.save_app,
-           _run._unshare_network
-  finish = the network slice of _finish.finish/_cleanup:
-           runtime.load_app_safe, _finish._cleanup_network (which calls
-           _cleanup_ephemeral_ports), network_client.delete
+  start  = the whole of treadmill.runtime.linux._run.run, from the resource
+           requests to the exec of the container supervisor (what
+           `treadmill sproc run` calls), over fakes for what needs root, the
+           kernel or a daemon: in-memory resource service clients, `cgroups`,
+           `image`, `fs.linux`, `unshare`, `newnet`, `apphook`, `subproc`,
+           `socket` (bind semantics) and an enumerated `random.sample`.  A
+           start that raises is handled like sproc/run.py does: the container
+           is flagged aborted (real appcfg.abort.flag_aborted), its process is
+           gone (sockets closed), the node finishes it later.
+  finish = the whole of _finish.finish (load_app_safe, _cleanup with
+           _cleanup_network / _cleanup_ephemeral_ports, apphook.cleanup,
+           finish info / events) over the same fakes.
+
+Every external step of either side is a numbered fault point (class Fault).
 
 with real RuleMgr / EndpointsMgr and the real treadmill.iptables ip-set
 functions running over a fake `subproc` that interprets the `ipset` command
@@ -29,8 +36,10 @@ from treadmill import appcfg  # noqa: E402
 from treadmill import endpoints  # noqa: E402
 from treadmill import iptables  # noqa: E402
 from treadmill import rulefile  # noqa: E402
+from treadmill import services  # noqa: E402
 from treadmill import runtime  # noqa: E402
 from treadmill import utils  # noqa: E402
+from treadmill.appcfg import abort as app_abort  # noqa: E402
 from treadmill.runtime.linux import _finish  # noqa: E402
 from treadmill.runtime.linux import _run  # noqa: E402
 
@@ -68,33 +77,57 @@ from treadmill.subproc import CalledProcessError  # noqa: E402
 
 
 class Fault:
-    """Command-failure injection for the finish slice.  Every external
-    command the finish path issues - each `ipset` / `conntrack` invocation
-    reaching the fake subproc, each unlink of a rule or endpoint-spec file,
-    the network service delete - is a numbered fault point.  `arm(k)` makes
-    exactly the k-th one fail ONCE with the exception the real wrapper raises
-    (CalledProcessError rc 2 resp. OSError EIO); `arm(None)` only counts."""
+    """Failure injection.  Every external step the start path / the finish
+    path takes - resource service put / wait / delete, cgroup join, image
+    lookup and unpack, socket bind, symlink of a rule or endpoint-spec file,
+    each `ipset` / `conntrack` invocation reaching the fake subproc, the veth
+    / netns creation, block device test / format / mount, unshare, mount
+    clean-up, app hooks, the exec of the supervisor, each unlink of a rule or
+    endpoint-spec file - is a numbered fault point of the side (`start` or
+    `finish`) that is executing.  `arm(k, side)` makes exactly the k-th step
+    of that side fail ONCE with the exception the real callee raises;
+    `arm(None, side)` only counts; `arm(None, side, match=f)` fails the first
+    step for which f(kind, what) is true."""
 
     def __init__(self):
-        self.active = False
+        self.where = None       # side executing right now
+        self.side = 'finish'    # side whose steps are counted
         self.n = 0
         self.fail_at = None
+        self.match = None
         self.fired = None
+        self.trace = None
 
-    def arm(self, k):
+    def arm(self, k, side='finish', match=None):
         self.n = 0
+        self.side = side
         self.fail_at = k
+        self.match = match
         self.fired = None
+        self.trace = []
 
     def tick(self, kind, what):
-        if not self.active:
+        if self.where is None or self.where != self.side:
             return
         idx = self.n
         self.n += 1
-        if idx == self.fail_at and self.fired is None:
+        if self.trace is not None:
+            self.trace.append(kind)
+        if self.fired is not None:
+            return
+        if self.match is not None:
+            hit = self.match(kind, what)
+        else:
+            hit = idx == self.fail_at
+        if hit:
             self.fired = (kind, what)
             if kind == 'subproc':
                 raise CalledProcessError(2, list(what))
+            if kind == 'service-wait':
+                raise services.ResourceServiceTimeoutError(
+                    'Resource %r not available in time' % (what,))
+            if kind == 'bind':
+                raise SocketError(errno.EACCES, 'injected bind failure')
             raise OSError(errno.EIO, 'injected I/O error', str(what))
 
 
@@ -103,10 +136,16 @@ FAULT = Fault()
 
 class FaultOs:
     """`os` as seen by treadmill.rulefile / treadmill.endpoints in the C16
-    process: unlink is a fault point, everything else is the real module."""
+    process: symlink and unlink are fault points, everything else is the real
+    module."""
 
     def __getattr__(self, name):
         return getattr(os, name)
+
+    @staticmethod
+    def symlink(src, dst, *a, **kw):
+        FAULT.tick('symlink', os.path.basename(os.path.dirname(dst)))
+        return os.symlink(src, dst, *a, **kw)
 
     @staticmethod
     def unlink(path, *a, **kw):
@@ -234,8 +273,10 @@ class FakeSocketModule:
                 self.closed = False
                 self.reuseaddr = False        # option value right now
                 self.reuse_at_bind = False    # ... at the moment of bind()
+                mod.host.created.append(self)
 
             def bind(self, addr):
+                FAULT.tick('bind', addr[1])
                 host = mod.host
                 key = (self.kind, addr[1])
                 holders = host.holders.get(key, [])
@@ -309,15 +350,130 @@ class FakeRandom:
 RANDOM = FakeRandom()
 
 
-class NewnetRecorder:
+class _HostFake:
+    """Base of the recording fakes: `host` is the node in use."""
+
     def __init__(self):
         self.host = None
 
+
+class NewnetRecorder(_HostFake):
+    """`newnet` as seen by _run: the veth pair / network namespace creation
+    (a series of `ip` commands on a node) is recorded; a fault point."""
+
     def create_newnet(self, veth, vip, gateway, service_ip=None):
+        FAULT.tick('subproc', ['newnet.create_newnet', str(veth)])
         self.host.newnet.append((veth, vip, gateway, service_ip))
 
 
 NEWNET = NewnetRecorder()
+
+
+class FakeCgroups(_HostFake):
+    """`cgroups` as seen by _run (the real _apply_cgroup_limits runs)."""
+
+    def join(self, subsystem, cgrp):
+        FAULT.tick('cgroup-join', subsystem)
+        self.host.steps.append(('cgroups.join', subsystem, cgrp))
+
+
+class FakeImage(_HostFake):
+    """`image` as seen by _run."""
+
+    def get_image(self, _tm_env, manifest):
+        FAULT.tick('image', 'get_image')
+        outer = self
+
+        class _Image:
+            @staticmethod
+            def unpack(container_dir, root_dir, app, _app_cgroups, _data):
+                FAULT.tick('image', 'unpack')
+                outer.host.steps.append(('image.unpack', root_dir, app.name))
+
+        self.host.steps.append(('image.get_image', manifest['name']))
+        return _Image()
+
+
+class FakeFsLinux(_HostFake):
+    """`fs_linux` as seen by _run (the real _create_root_dir runs)."""
+
+    def blk_fs_test(self, block_dev):
+        FAULT.tick('block-device', 'blk_fs_test')
+        self.host.steps.append(('blk_fs_test', block_dev))
+        return False
+
+    def blk_fs_create(self, block_dev):
+        FAULT.tick('block-device', 'blk_fs_create')
+        self.host.steps.append(('blk_fs_create', block_dev))
+
+    def mount_filesystem(self, block_dev, target, fs_type='ext4'):
+        FAULT.tick('mount', 'mount_filesystem')
+        self.host.steps.append(('mount_filesystem', block_dev, fs_type))
+
+    def cleanup_mounts(self, _whitelist, **_kw):
+        FAULT.tick('mount', 'cleanup_mounts')
+        self.host.steps.append(('cleanup_mounts',))
+
+
+class FakeUnshare(_HostFake):
+    """`unshare` as seen by _run."""
+    CLONE_NEWNS = 0x00020000
+
+    def unshare(self, flags):
+        FAULT.tick('unshare', flags)
+        self.host.steps.append(('unshare', flags))
+
+
+class FakeApphook(_HostFake):
+    """`apphook` as seen by _run and _finish."""
+
+    def configure(self, _tm_env, app, _container_dir):
+        FAULT.tick('apphook', 'configure')
+        self.host.steps.append(('apphook.configure', app.name))
+
+    def cleanup(self, _tm_env, app, _container_dir):
+        FAULT.tick('apphook', 'cleanup')
+        self.host.steps.append(('apphook.cleanup', app.name))
+
+
+class FakeRunSubproc(_HostFake):
+    """`subproc` as seen by _run: the exec of the container supervisor is the
+    last step of a start; here it returns."""
+    CalledProcessError = CalledProcessError
+
+    def exec_pid1(self, cmd, **_kw):
+        FAULT.tick('exec', cmd[0])
+        self.host.steps.append(('exec_pid1', cmd[0]))
+
+
+class FakeRrdutils(_HostFake):
+    """`rrdutils` as seen by _finish (flush_noexc never raises)."""
+
+    def flush_noexc(self, rrd_file, *_a, **_kw):
+        self.host.steps.append(('rrd.flush', os.path.basename(rrd_file)))
+
+
+class FakeTrace(_HostFake):
+    """`trace` as seen by _finish and appcfg.abort: events are recorded."""
+
+    def post(self, _events_dir, event):
+        self.host.events.append(type(event).__name__)
+
+
+CGROUPS = FakeCgroups()
+IMAGE = FakeImage()
+FS_LINUX = FakeFsLinux()
+UNSHARE = FakeUnshare()
+APPHOOK = FakeApphook()
+RUN_SUBPROC = FakeRunSubproc()
+RRDUTILS = FakeRrdutils()
+TRACE = FakeTrace()
+HOST_FAKES = (NEWNET, CGROUPS, IMAGE, FS_LINUX, UNSHARE, APPHOOK,
+              RUN_SUBPROC, RRDUTILS, TRACE)
+
+
+def _archive_logs(_tm_env, _name, _container_dir):
+    """runtime.archive_logs (tars the container's logs): nothing to do."""
 
 
 class _CachedCollections:
@@ -364,38 +520,92 @@ def install():
     _run.socket = FakeResolver
     _finish.socket = FakeResolver
     _run.newnet = NEWNET
+    _run.cgroups = CGROUPS
+    _run.image = IMAGE
+    _run.fs_linux = FS_LINUX
+    _run.unshare = UNSHARE
+    _run.apphook = APPHOOK
+    _run.subproc = RUN_SUBPROC
+    _finish.apphook = APPHOOK
+    _finish.rrdutils = RRDUTILS
+    _finish.trace = TRACE
+    app_abort.trace = TRACE
+    runtime.archive_logs = _archive_logs
 
 
-class NetworkClient:
-    """Fake network service client: lowest free vip; get() of a resource that
-    was deleted (or never put) returns None."""
+class ServiceClient:
+    """Fake resource service client (cgroup, localdisk, presence): put
+    records the request, wait / get return the reply, delete forgets it.
+    get() of a resource that was deleted (or never put) returns None.  Every
+    put / wait / delete is a fault point."""
+
+    def __init__(self, name, reply=None):
+        self.name = name
+        self.reply = reply if reply is not None else {}
+        self.alloc = {}
+
+    def _allocate(self, _rsrc_id, _data):
+        return dict(self.reply)
+
+    def _missing(self, _rsrc_id):
+        raise services.ResourceServiceTimeoutError(
+            'Resource %r not available in time' % (_rsrc_id,))
+
+    def put(self, rsrc_id, data):
+        FAULT.tick('service-put', '%s put' % self.name)
+        if rsrc_id in self.alloc:
+            return
+        self.alloc[rsrc_id] = self._allocate(rsrc_id, data)
+
+    def wait(self, rsrc_id, timeout=None):
+        FAULT.tick('service-wait', '%s wait' % self.name)
+        v = self.alloc.get(rsrc_id)
+        if v is None:
+            return self._missing(rsrc_id)
+        return copy.deepcopy(v)
+
+    def get(self, rsrc_id):
+        v = self.alloc.get(rsrc_id)
+        return copy.deepcopy(v) if v is not None else None
+
+    def delete(self, rsrc_id):
+        FAULT.tick('service-delete', '%s delete' % self.name)
+        self.alloc.pop(rsrc_id, None)
+
+
+class NetworkClient(ServiceClient):
+    """Fake network service client: lowest free vip.  _run.run waits for the
+    network of a shared-network container without having requested one: the
+    reply is then the host's own network (as the harness always assumed)."""
     EXTERNAL_IP = '10.0.0.1'
     GATEWAY = '192.168.254.254'
 
     def __init__(self):
-        self.alloc = {}
+        ServiceClient.__init__(self, 'network')
 
-    def put(self, rsrc_id, _data):
-        if rsrc_id in self.alloc:
-            return
+    def _allocate(self, _rsrc_id, _data):
         used = {v['vip'] for v in self.alloc.values()}
         n = 2
         while '192.168.0.%d' % n in used:
             n += 1
-        self.alloc[rsrc_id] = {
-            'vip': '192.168.0.%d' % n, 'veth': 'veth%d.1' % n,
-            'gateway': self.GATEWAY, 'external_ip': self.EXTERNAL_IP}
+        return {'vip': '192.168.0.%d' % n, 'veth': 'veth%d.1' % n,
+                'gateway': self.GATEWAY, 'external_ip': self.EXTERNAL_IP}
 
-    def wait(self, rsrc_id, timeout=None):
-        return self.get(rsrc_id)
+    def _missing(self, _rsrc_id):
+        return {'vip': self.EXTERNAL_IP, 'veth': None, 'gateway': None,
+                'external_ip': self.EXTERNAL_IP}
 
-    def get(self, rsrc_id):
-        v = self.alloc.get(rsrc_id)
-        return dict(v) if v else None
 
-    def delete(self, rsrc_id):
-        FAULT.tick('network-client', 'delete')
-        self.alloc.pop(rsrc_id, None)
+class Service:
+    """tm_env.svc_<name>: hands out the one in-memory client of the node
+    (on a node the state lives in the container's resources/ directory and
+    in the service daemon; every client object sees the same state)."""
+
+    def __init__(self, client):
+        self.client = client
+
+    def make_client(self, _clientdir):
+        return self.client
 
 
 FOREIGN = 'proid.foreign-0000000099-000000000000f'
@@ -412,10 +622,29 @@ class Host:
         self.endpoints_dir = os.path.join(self.dir, 'endpoints')
         os.mkdir(self.apps_dir)
         os.mkdir(self.rules_dir)
+        self.net = NetworkClient()
+        self.svc = {
+            'cgroup': ServiceClient('cgroup', {'cpu': '/treadmill/apps/x',
+                                               'memory': '/treadmill/apps/x'}),
+            'localdisk': ServiceClient('localdisk', {'block_dev': '/dev/x'}),
+            'network': self.net,
+            'presence': ServiceClient('presence'),
+        }
         self.tm_env = types.SimpleNamespace(
             apps_dir=self.apps_dir,
+            metrics_dir=os.path.join(self.dir, 'metrics'),
+            app_events_dir=os.path.join(self.dir, 'appevents'),
+            data={},
             rules=rulefile.RuleMgr(self.rules_dir, self.apps_dir),
-            endpoints=endpoints.EndpointsMgr(self.endpoints_dir))
+            endpoints=endpoints.EndpointsMgr(self.endpoints_dir),
+            svc_cgroup=Service(self.svc['cgroup']),
+            svc_localdisk=Service(self.svc['localdisk']),
+            svc_network=Service(self.net),
+            svc_presence=Service(self.svc['presence']))
+        self.runtime_config = types.SimpleNamespace(host_mount_whitelist=[])
+        self.steps = []
+        self.events = []
+        self.created = []
         self.ipsets = {iptables.SET_VRING_CONTAINERS: set(),
                        iptables.SET_INFRA_SVC: set(),
                        iptables.SET_PASSTHROUGHS: set()}
@@ -423,7 +652,6 @@ class Host:
         self.binds = 0
         self.calls = []
         self.newnet = []
-        self.net = NetworkClient()
         self.port_order = port_order
         self.sockets = {}
         if prebound:
@@ -446,7 +674,8 @@ class Host:
     def activate(self):
         SUBPROC.host = self
         SOCKET.host = self
-        NEWNET.host = self
+        for fake in HOST_FAKES:
+            fake.host = self
         RANDOM.order = self.port_order
 
     def _foreign(self):
@@ -501,57 +730,60 @@ class Host:
         return unique, cdir, os.path.join(cdir, 'data')
 
     def start(self, manifest):
-        """Returns the frozen app object (what _run keeps)."""
+        """The real _run.run.  Returns the frozen app object as finish will
+        see it (from state.json).  If run raises, the container is flagged
+        aborted the way sproc/run.py does it, its process is gone (all the
+        sockets it opened are closed) and the exception is re-raised."""
         self.activate()
         manifest = copy.deepcopy(manifest)
-        unique, cdir, data_dir = self.paths(manifest)
+        unique, _cdir, data_dir = self.paths(manifest)
         os.makedirs(data_dir, exist_ok=True)
-        if not manifest['shared_network']:
-            self.net.put(unique, {'environment': manifest['environment']})
-            app_network = self.net.wait(unique)
-        else:
-            app_network = {'vip': NetworkClient.EXTERNAL_IP, 'veth': None,
-                           'gateway': None,
-                           'external_ip': NetworkClient.EXTERNAL_IP}
-        manifest['network'] = app_network
-        manifest['vip'] = {'ip0': app_network['gateway'],
-                           'ip1': app_network['vip']}
-        sockets = runtime.allocate_network_ports(
-            app_network['external_ip'], manifest)
-        self.sockets[unique] = sockets
-        app = runtime.save_app(manifest, data_dir)
-        if not app.shared_network:
-            _run._unshare_network(self.tm_env, cdir, app)
-        else:
-            # _run closes the sockets of a shared-network container so that
+        self.created = []
+        FAULT.where = 'start'
+        try:
+            _run.run(self.tm_env, self.runtime_config, data_dir, manifest)
+        except Exception as err:
+            FAULT.where = None
+            for s in self.created:
+                s.close()
+            self.created = []
+            app_abort.flag_aborted(data_dir,
+                                   why=app_abort.AbortedReason.UNKNOWN,
+                                   payload=err)
+            raise
+        finally:
+            FAULT.where = None
+        sockets, self.created = self.created, []
+        app = runtime.load_app(data_dir)
+        if app is not None and app.shared_network:
+            # _run closed the sockets of a shared-network container so that
             # its application can bind the ports itself: model the
             # application doing so right away (held until finish)
             held = []
             for s in sockets:
-                kind, addr = s.kind, s.addr
+                if s.addr is None:
+                    continue
                 s.close()
-                app_sock = SOCKET.socket(SOCKET.AF_INET, kind)
-                app_sock.bind(addr)
+                app_sock = SOCKET.socket(SOCKET.AF_INET, s.kind)
+                app_sock.bind(s.addr)
                 held.append(app_sock)
-            self.sockets[unique] = held
+            sockets = held
+            self.created = []
+        self.sockets[unique] = sockets
         return app
 
     def finish(self, manifest):
+        """The real _finish.finish."""
         self.activate()
-        unique, _cdir, data_dir = self.paths(manifest)
-        app = runtime.load_app_safe(unique, data_dir)
-        if app:
-            if hasattr(app, 'shared_network') and not app.shared_network:
-                FAULT.active = True
-                try:
-                    _finish._cleanup_network(self.tm_env, data_dir, app,
-                                             self.net)
-                finally:
-                    FAULT.active = False
+        unique, cdir, _data_dir = self.paths(manifest)
+        FAULT.where = 'finish'
+        try:
+            _finish.finish(self.tm_env, cdir)
+        finally:
+            FAULT.where = None
         # the container's supervisor is gone: its sockets are closed
         for s in self.sockets.pop(unique, ()):
             s.close()
-        return app
 
 
 def kind_of(item):
@@ -617,6 +849,13 @@ def manifest(name='proid.app#0000000001', uniqueid='000000000000a',
              shared_network=False, shared_ip=False, environment='dev'):
     """What appcfg.manifest.load hands to the runtime (network fields)."""
     return {
+        'type': 'native',
+        'cell': 'cell1',
+        'cpu': '10%',
+        'memory': '100M',
+        'disk': '100M',
+        'services': [],
+        'archive': [],
         'name': name,
         'app': name.split('#')[0],
         'task': name.split('#')[1],
